@@ -580,6 +580,11 @@ def _definitely_value(r):
     at = r.as_atom()
     if at is not None and at.func == "ifexp":
         return all(isinstance(x, Rat) and _definitely_value(x) for x in at.args[1:3])
+    if at is not None and at.func == "getitem" and at.args and isinstance(at.args[0], Rat):
+        b = at.args[0].as_atom()
+        # an element of the list of arrays returned by Data.get_scores is an array
+        if b is not None and (b.func.endswith(".get_scores") or b.func in ("self.get_scores",)):
+            return True
     return at is not None and at.func in VALUE_FUNCS
 
 
@@ -702,6 +707,11 @@ def apply(func, args, kwargs=None):
         if len(flat) == 1:
             return flat[0]
         return Rat.of_atom(atom(func, tuple(flat)))
+    if func == "callobj" and x is not None and len(args) == 3 and not extra:
+        op = {"$operator.le": "cmp_le", "$operator.lt": "cmp_lt", "$operator.ge": "cmp_ge", "$operator.gt": "cmp_gt",
+              "$operator.eq": "cmp_eq", "$operator.ne": "cmp_ne"}.get(x.key())
+        if op is not None and isinstance(args[1], Rat) and isinstance(args[2], Rat):
+            return apply(op, [args[1], args[2]])
     if func == "ifexp" and len(args) == 3 and x is not None and not extra:
         c = x.const_value()
         if c is not None:
